@@ -136,7 +136,8 @@ def canon_stmts(fn, stmts):
     for v in fn.walk():
         if v.k == 'VarDecl' and v.n in ('result', 'out'):
             ren.map[v.d] = '$' + v.n
-    txt = ''.join(clone.canon(s, fn, subst=HDR_SUBST, ren=ren) for s in stmts)
+    hook, drop = clone.temps(fn, stmts, ren)     # named pure temporaries print as their initialisers
+    txt = ''.join(clone.canon(s, fn, subst=HDR_SUBST, ren=ren, hook=hook, drop=drop) for s in stmts)
     order = []
     for m in re.finditer(r'\bv\d+\b', txt):
         if m.group(0) not in order:
